@@ -2,7 +2,7 @@
 # confirm one seeded change (/tmp/seed_out/<id>/patch.diff + demo) in the isolated worktree /tmp/wt_confirm,
 # then try the checks on /repo with the patch applied (and undo it)
 # usage: confirm_seed.sh <ID> [props to check...]
-id=$1; shift; props=${@:-$id}
+id=$1; shift; props=${@:-$id}; exec > >(tee /tmp/seed_out/$id/confirm.log) 2>&1
 wt=/tmp/wt_confirm; out=/tmp/seed_out/$id
 git -C $wt checkout -q -- . ; git -C $wt clean -fdq -e _build
 echo "== patch"; head -50 $out/patch.diff
